@@ -23,7 +23,7 @@ Mirrors, stage by stage,
   survey (always the absolute path with a space on either side, survey.py 1177-1195).
 
 Python dicts are insertion-ordered association lists.  Outside the fragment (`unsupported`, said by
-the model itself): non-ASCII headers, `audit`, loops, osm, external
+the model itself): non-ASCII headers, loops, osm, external
 selects, `save_to`, background-geopoint, references to anything but a top-level question,
 `last-saved#`, names that are not unique in the form, bind cells nested deeper than
 `bind::attr::lang`, headers whose shape contradicts their slot (F14 class).
@@ -527,6 +527,70 @@ def classifyNamed (lists : List Str) (n : Nat) (tl : TL) (r : PRow) (ps : List (
       ([.qs [{ name, tt := typeBind t, bind := withParamBind r.bind upd, trig := r.trigger,
                 visible := t ≠ "calculate".toList && r.hasLabel && Rows.tagHasControl tag }]], tl)
 
+/-! ### `audit` rows → the meta block (xls2json.py 587-749) -/
+
+def strNat (s : Str) : Nat := s.foldl (fun n c => n * 10 + (c.toNat - 48)) 0
+
+/-- `int(x)` succeeds and is `≥ 0` -/
+def intNonneg (s : Str) : Option Nat :=
+  if isIntLit s then
+    let v := strNat (unsigned s)
+    if s.head? = some '-' && v != 0 then none else some v
+  else none
+
+def locationPriorities : List String := ["no-power", "low-power", "balanced", "high-accuracy"]
+
+/-- bind attributes the parameters of an `audit` row add, in the order the row loop adds them -/
+def auditBind (ps : List (Str × Str)) : Except String (List (Str × BVal)) :=
+  let get (k : String) : Option Str := lookup k.toList ps
+  let tf (v : Str) : Bool := v = "true".toList || v = "false".toList
+  if !allowedOnly ps ["location-priority", "location-min-interval", "location-max-age", "track-changes",
+      "identify-user", "track-changes-reasons"] then .error "audit parameter name"
+  else if !((get "track-changes").all tf) then .error "track-changes value"
+  else if !((get "track-changes-reasons").all (· = "on-form-edit".toList)) then .error "track-changes-reasons value"
+  else if !((get "identify-user").all tf) then .error "identify-user value"
+  else
+  let a1 : List (Str × BVal) := match get "track-changes" with
+    | some v => [("odk:track-changes".toList, .s v)] | none => []
+  let a2 : List (Str × BVal) := match get "track-changes-reasons" with
+    | some v => [("odk:track-changes-reasons".toList, .s v)] | none => []
+  let a3 : List (Str × BVal) := match get "identify-user" with
+    | some v => [("odk:identify-user".toList, .s v)] | none => []
+  match get "location-priority", get "location-min-interval", get "location-max-age" with
+  | none, none, none => .ok (a1 ++ a2 ++ a3)
+  | some p, some mi, some ma =>
+    if !(locationPriorities.any (·.toList = p)) then .error "location-priority value"
+    else match intNonneg mi, intNonneg ma with
+      | some i, some a =>
+        if a < i then .error "location-max-age < location-min-interval"
+        else .ok (a1 ++ a2 ++ a3 ++ [("odk:location-max-age".toList, .s ma),
+                   ("odk:location-min-interval".toList, .s mi), ("odk:location-priority".toList, .s p)])
+      | _, _ => .error "location interval value"
+  | _, _, _ => .error "location parameters must come together"
+
+/-- is the processed row an audit row that reaches the meta block?  `none`: not an audit row (or
+    disabled / empty); `some (.error _)`: rejected; `some (.ok q)`: the `meta/audit` element -/
+def auditOf (r : PRow) : Option (Except String Q) :=
+  if (match r.disabled with | some v => Rows.yesNoTrue v | none => false) then none
+  else if r.keys = 0 then none
+  else
+  match r.type with
+  | none => none
+  | some t0 =>
+    if dealiasType t0 ≠ "audit".toList then none
+    else
+    let psO : Option (List (Str × Str)) := match r.parameters with
+      | some p => if isAscii p then parseParams p else none
+      | none => some []
+    match psO with
+    | none => some (.error "parameters cell not of the form key=value")
+    | some ps =>
+      if (match r.name with | some nm => !(nm == "audit".toList) | none => false) then some (.error "audit name")
+      else if r.trigger.isSome then some (.error "audit row with a trigger")
+      else match auditBind ps with
+        | .error w => some (.error w)
+        | .ok upd => some (.ok { name := "audit".toList, tt := typeBind "audit".toList, bind := withParamBind r.bind upd })
+
 /-- one processed row (number `n`, header row = 1) through the row loop of `workbook_to_json`:
     the RKs it contributes and the new `table_list` state (every `end` row resets it) -/
 def classify (lists : List Str) (n : Nat) (tl : TL) (r : PRow) : List RK × TL :=
@@ -543,7 +607,11 @@ def classify (lists : List Str) (n : Nat) (tl : TL) (r : PRow) : List RK × TL :
     match psO with
     | none => ([.unsupported "parameters cell not of the form key=value"], tl)
     | some ps =>
-    if t = "audit".toList then ([.unsupported "audit"], tl)
+    if t = "audit".toList then
+      (match auditOf r with
+       | some (.ok _) => ([.skip], tl)              -- goes to the meta block (`metaOfRows`)
+       | some (.error w) => ([.unsupported w], tl)
+       | none => ([.unsupported "audit"], tl))
     else if t = "calculate".toList &&
         !(match r.bind with | some b => (lookup "calculate".toList b).isSome | none => false) then
       ([.unsupported "calculate without calculation"], tl)
@@ -741,6 +809,21 @@ def processRows (dl : Str) (key : List (Str × List Str)) (lists : List Str) :
       | .ok ks => .ok (ks0 ++ ks)
       | .error e => .error e
 
+/-- the second accumulator of the row loop: `meta_children` (audit rows, in order) -/
+def metaOfRows (dl : Str) (key : List (Str × List Str)) : List (List (Str × Str)) → Except String (List Q)
+  | [] => .ok []
+  | cells :: rest =>
+    match processRow dl key {} cells with
+    | .error e => .error e
+    | .ok r =>
+      match metaOfRows dl key rest with
+      | .error e => .error e
+      | .ok qs =>
+        match auditOf r with
+        | some (.ok q) => .ok (q :: qs)
+        | some (.error e) => .error e
+        | none => .ok qs
+
 def rkNames : RK → List Str
   | .qs l => l.map (·.name)
   | .begin_ _ pre q => pre.map (·.name) ++ [q.name]
@@ -778,15 +861,19 @@ def attrNameOK (k : Str) : Bool :=
 def bindValid (b : Bind) : Bool := b.attrs.all fun kv => attrNameOK kv.1 && kv.2.all xmlChar
 
 /-- classified rows ↦ the bind elements, in document order -/
-def bindsOfRows (root : Str) (ks : List RK) : Out :=
-  let names := (ks.flatMap rkNames).map lowerAscii
+def metaElem (root : Str) (q : Q) : Elem := { path := [root, "meta".toList, q.name], q }
+
+def allNames (ks : List RK) (metas : List Q) : List Str := ks.flatMap rkNames ++ metas.map (·.name)
+
+def bindsOfRows (root : Str) (ks : List RK) (metas : List Q) : Out :=
+  let names := (allNames ks metas).map lowerAscii
   if !(decide names.Nodup) || names.any (reservedNames root).contains then .unsupported "names not unique" else
   if emptySection false ks then .unsupported "empty group" else
   if !triggersOK (visibleTops 0 ks) ks then .unsupported "trigger target" else
   match walk root [] ks with
   | none => .unsupported "unbalanced begin/end"
   | some es =>
-    match renderAll root (topNames 0 ks) (es ++ [instanceID root]) with
+    match renderAll root (topNames 0 ks) (es ++ (metas.map (metaElem root) ++ [instanceID root])) with
     | none => .unsupported "reference or value outside the fragment"
     | some bs => if bs.all bindValid then .ok bs else .unsupported "attribute name or character not allowed in XML"
 
@@ -800,7 +887,10 @@ def formBinds (root dl : Str) (lists : List Str) (headers : List Str) (rows : Li
     if !(key.any fun kt => kt.2.head? = some "type".toList) then .unsupported "no type column" else
     match processRows dl key lists 2 .off rows with
     | .error w => .unsupported w
-    | .ok ks => bindsOfRows root ks
+    | .ok ks =>
+      match metaOfRows dl key rows with
+      | .error w => .unsupported w
+      | .ok metas => bindsOfRows root ks metas
 
 /-! ## Spec: what C05 demands of one row's bind (a finite map, stated by lookup) -/
 
